@@ -421,6 +421,14 @@ def _identity_eq(it, a, b):
         if isinstance(other, SV) and other.kind == "val":
             return (a if sa else b).attrs["term"] == other.t
         return False
+    for x_, y_ in ((a, b), (b, a)):
+        # a callback the user MAY have left out, in which case the library put its default there (Disposable(action=None) -> noop): whether the
+        # opaque callback IS that default function is one more unknown of the state (the same answer every time it is asked)
+        if (isinstance(x_, Opaque) and x_.attrs.get("may_be_default") and isinstance(y_, Closure)
+                and getattr(y_.node, "name", None) == x_.attrs["may_be_default"]):
+            if "_default_term" not in x_.attrs:
+                x_.attrs["_default_term"] = z3.Bool(f"{x_.name}_is_the_default_{x_.attrs['may_be_default']}")
+            return x_.attrs["_default_term"]
     if _is_private_sentinel(a) or _is_private_sentinel(b):
         # A-sentinel: a library-private sentinel object (NotSet instance) is never a user element
         return a is b
